@@ -87,10 +87,17 @@ def plan():
     for key in NAMES:
         w, p = fresh(key)
         n0, mark = w.nex, len(w.log)
-        rep = mw.request(p, REQS[key])
+        try:
+            rep = mw.request(p, REQS[key])
+        except Exception as e:     # noqa - the request escaped the protocol object
+            rep = {"errorcode": "%s: %s" % (type(e).__name__, str(e)[:120])}
         if rep.get("errorcode") != 0:
-            raise HarnessError("nominal request %s/%s does not succeed on the simulated device: "
-                               "%r" % (key[0], key[1], rep))
+            # the device did everything right (the simulation is checked against the unchanged
+            # tree by every run): success is not reported
+            _PLAN.clear()
+            raise Violation("nominal-not-success:%s" % REQS[key]["command"],
+                            "%s/%s on a device that answers every exchange successfully -> %r"
+                            % (key[0], key[1], rep))
         _PLAN[key] = [step_kind(a) for a in w.apdus(mark)]
         if len(_PLAN[key]) != w.nex - n0:
             raise HarnessError("exchange count mismatch for %s" % (key,))
@@ -194,6 +201,18 @@ def all_sws():
     return [sw for sw in range(0x10000) if sw != 0x9000 and (sw & 0xFF00) != 0x6100]
 
 
+def _guard(builder):
+    """Case builders need the plan of nominal exchanges; when the nominal requests themselves do
+    not succeed any more, the builder yields one case that reports just that."""
+    def build(tier, seed):
+        try:
+            return builder(tier, seed)
+        except Violation as v:
+            return [{"m": "v5", "r": "getPubKey", "i": 0, "o": None,
+                     "plan_violation": [v.sig, v.detail]}]
+    return build
+
+
 class Cells:
     """Lazy sequence of all cells of a tier."""
 
@@ -246,6 +265,8 @@ def in_device_range(sw):
 
 
 def run_case(c):
+    if c.get("plan_violation"):
+        raise Violation(*c["plan_violation"])
     key = (c["m"], c["r"])
     pl = plan()
     kinds = pl[key]
@@ -392,6 +413,40 @@ class WarmCells:
         return c
 
 
+SIG_SHAPES = [(1, 1), (31, 32), (32, 30), (33, 33), (20, 32), (32, 32), (8, 33)]
+
+
+def success_shape_cells(tier, seed):
+    """'...and always when it did so with a well-formed answer': successful answers carrying
+    DER signatures of every legal shape (integers of 1..33 bytes, either sequence tag)."""
+    return [{"m": k[0], "r": k[1], "rl": rl, "sl": sl, "first": first}
+            for k in NAMES if k[1].startswith("sign") or "Hb" in k[1]
+            for (rl, sl) in SIG_SHAPES for first in (0x30, 0x31)]
+
+
+def run_success_shape(c):
+    key = (c["m"], c["r"])
+    w, p = fresh(key)
+    r = bytes([0x11] + [0x21] * (c["rl"] - 1))[:c["rl"]]
+    s_ = bytes([0x12] + [0x22] * (c["sl"] - 1))[:c["sl"]]
+    der = refs.der_sig(r, s_, c["first"])
+    w.sig_der = der
+    w.hb["sig"] = der
+    w.hb["ui_sig"] = der
+    out, exc = mw.serve_line(mw.handler(p), json.dumps(REQS[key]).encode())
+    mw.check_sim(w)
+    rep_ = mw.parse_reply(out)
+    where = "%s/%s, device signs with r of %d and s of %d bytes (tag %#x)" % (
+        c["m"], c["r"], c["rl"], c["sl"], c["first"])
+    if exc is not None or rep_ is None:
+        raise Violation("no-usable-reply:%s" % REQS[key]["command"], "%s: %r %r" % (
+            where, out[:80], exc))
+    if rep_["errorcode"] != 0 or rep_.get("signature") != {"r": r.hex(), "s": s_.hex()}:
+        raise Violation("device-success-not-reported:%s" % REQS[key]["command"],
+                        "%s -> %r" % (where, rep_))
+    return Out(["success-shape", "req:%s/%s" % key], True)
+
+
 def _named_cells(m="v5"):
     """(request, step, status word) for every status word with a documented cause."""
     pl = plan()
@@ -426,18 +481,21 @@ def cross_cells(tier, seed):
     return out
 
 
-REQUIRED_LABELS = {t: ["warm", "after-another-command", "outcome:sw", "outcome:op", "outcome:timeout", "outcome:read",
+REQUIRED_LABELS = {t: ["warm", "after-another-command", "success-shape", "outcome:sw", "outcome:op", "outcome:timeout", "outcome:read",
                        "outcome:write", "outcome:None", "named-cause"] +
                    ["req:%s/%s" % k for k in NAMES] for t in ("quick", "thorough")}
 
 
 def stages(tier):
-    return [EnumStage("matrix", lambda t, s: Cells(t, s), run_case,
+    return [EnumStage("matrix", _guard(lambda t, s: Cells(t, s)), run_case,
                       exhaustive={"thorough": True},
                       budget_s={"quick": 150, "thorough": 2400}),
-            EnumStage("after-other-outcomes", cross_cells, run_case,
+            EnumStage("well-formed-success-shapes", success_shape_cells, run_success_shape,
+                      exhaustive={"quick": True, "thorough": True},
+                      budget_s={"quick": 60, "thorough": 60}),
+            EnumStage("after-other-outcomes", _guard(cross_cells), run_case,
                       exhaustive={"quick": True, "thorough": True},
                       budget_s={"quick": 60, "thorough": 600}),
-            EnumStage("after-a-successful-run", lambda t, s: WarmCells(t, s), run_case,
+            EnumStage("after-a-successful-run", _guard(lambda t, s: WarmCells(t, s)), run_case,
                       exhaustive={"quick": False, "thorough": False},
                       budget_s={"quick": 150, "thorough": 600})]
